@@ -217,7 +217,11 @@ def do_apply(np, obj, x, ip, axis, seed=None):
             np.random.seed(seed)
         out = obj.apply(inp, **kw)
     warned = any(issubclass(i.category, DeprecationWarning) for i in w)
-    return out, inp, bool(np.shares_memory(out, inp)), warned
+    if out.size:
+        shares = bool(np.shares_memory(out, inp))
+    else:  # zero-size arrays never "share memory": fall back to object identity / view-of
+        shares = out is inp or getattr(out, "base", None) is inp
+    return out, inp, shares, warned
 
 
 def mk_obj(pre, which, c):
@@ -594,8 +598,9 @@ def check_dither(np, pre, c, x, ip, axis, seed):
             info = np.iinfo(dt)
             if not (info.min < ei < info.max) or abs(ei) >= 2 ** 62:
                 continue
-            if abs(o - math.trunc(ei)) > (1 if abs(ei - round(ei)) < 1e-6 else 0) + abs(ei) * 2e-16:
-                probs.append("y[%d] = %r, expected trunc(x + coeff*g) = trunc(%r) (x=%r, coeff=%r, g=%r)" % (i, out[i].item(), ei, float(w[i]), ceff, float(unit[i])))
+            near_tie = abs(abs(ei - math.floor(ei)) - 0.5) < 1e-6
+            if abs(o - round(ei)) > (1 if near_tie else 0) + abs(ei) * 2e-16:
+                probs.append("y[%d] = %r, expected rint(x + coeff*g) = rint(%r) (x=%r, coeff=%r, g=%r)" % (i, out[i].item(), ei, float(w[i]), ceff, float(unit[i])))
         else:
             sc = max(abs(float(w[i])), abs(ceff * float(unit[i])), float(np.finfo(dt).tiny))
             if abs(ei) > float(np.finfo(dt).max):
@@ -737,6 +742,56 @@ def moments(ctx, np, pre):
     ctx.count("stream-continues:%s" % bool(np.array_equal(p, q)))
 
 
+KEY_INT_BIAS = "dither-int-dtype-truncation-bias"
+
+
+def int_dither_bias(ctx, np, pre):
+    """Integer dtypes: is the RETURNED noise zero-mean and signal independent?
+
+    The model says no (theorem dither_int_noise_biased_refuted): the cast back to
+    an integer dtype truncates toward zero.  Replay the witness (deviates of
+    about +1/2 and -1/2 on the samples 1000 and -1000) and measure the mean."""
+    d = pre.Dither(1.0)
+    pos = neg = None
+    for seed in range(500):
+        np.random.seed(seed)
+        g = float(np.random.standard_normal(1)[0])
+        if pos is None and 0.25 < g < 0.75:
+            pos = seed
+        if neg is None and -0.75 < g < -0.25:
+            neg = seed
+        if pos is not None and neg is not None:
+            break
+    wit = {}
+    for v in (1000, -1000):
+        x = np.array([v], dtype=np.int16)
+        np.random.seed(pos)
+        a = int(d.apply(x)[0]) - v
+        np.random.seed(neg)
+        b = int(d.apply(x)[0]) - v
+        wit[v] = (a, b)
+    n = ctx.scale(200000, 1000000)
+    seed = ctx.rng.randrange(2 ** 32)
+    means = {}
+    for v in (1000, -1000):
+        x = np.full(n, v, dtype=np.int16)
+        np.random.seed(seed)
+        out = d.apply(x)
+        means[v] = float((out.astype(np.float64) - v).mean())
+    ctx.count("int-dither-bias-check")
+    ctx.case(dict(int_dither=True, n=n, seed=seed, means=means, witness={str(k): list(w) for k, w in wit.items()}))
+    lim = 6 * math.sqrt(1 + 1 / 12.0) / math.sqrt(n)
+    if abs(means[1000]) > lim or abs(means[-1000]) > lim:
+        ctx.fail("Dither(1.0) on int16: the returned noise has mean %.4f on samples equal to 1000 and %+.4f on samples equal to -1000 "
+                 "(expected 0; %d samples, seed %d): the cast back to the integer dtype truncates toward zero; "
+                 "deviates of about +1/2 and -1/2 (seeds %d, %d) move [1000] by %r and [-1000] by %r" % (
+                     means[1000], means[-1000], n, seed, pos, neg, wit[1000], wit[-1000]),
+                 dict(check="int-dither-bias", input=dict(cls="Dither", coeff="1.0", dtype="int16", x=[1000], in_place=False, axis="omit", seed=neg),
+                      note="apply([1000]) under numpy.random.seed(%d) returns 999 (noise about -0.5 -> -1) but under seed %d returns 1000 (noise about +0.5 -> 0)" % (neg, pos),
+                      means={str(k): m for k, m in means.items()}, n=n, stat_seed=seed),
+                 kind="impl", key=KEY_INT_BIAS)
+
+
 def torch_oracle(ctx, np, torch, pt, pre):
     r = ctx.rng
     for k in range(ctx.scale(60, 1000)):
@@ -832,6 +887,7 @@ def run(ctx):
         check_defaults(ctx, pre, pt)
     oracle(ctx, np, pre)
     moments(ctx, np, pre)
+    int_dither_bias(ctx, np, pre)
     if pt is not None:
         torch_oracle(ctx, np, torch, pt, pre)
     if pr is not None and not pr["ok"] and not any(not f["no_input"] for f in ctx.failures):
